@@ -503,21 +503,191 @@ theorem construct_outcome {s : U} (hg : Good env nh s) {sh : Shape} {xs : List N
   right
   exact ⟨sh, xs, a, fun x h => (hx x (hl x h)).1, by rw [eg, hx.gsOf hl], by rw [er, hx.rsOf hl]⟩
 
+theorem basic_compat {s : U} (hg : Good env nh s) (k : Nat) :
+    ∀ i, Live s i → (uOps nh).ident (s.rep i).g (.basic k) = true → (s.rep i).r = .basic k := by
+  intro i li hi
+  simp only [uOps, identB_eq'] at hi
+  rcases hg.par i li with lf | ⟨sh, ys, _, _, hgi, _⟩
+  · unfold Leaf at lf
+    cases hx : (s.rep i).g <;> rw [hx] at lf hi <;> simp [ident] at hi lf
+    subst hi; exact lf
+  · rw [hgi, mkG_not_basic] at hi; cases hi
+
 theorem leafBasic_outcome {s : U} (hg : Good env nh s) (k : Nat) :
     Outcome env nh s (.basic k) (.basic k) (leafBasic (uOps nh) s k) := by
   unfold leafBasic maketype
-  refine outcome_of_spec hg (by simp [WF]) (by simp) ?_ ?_
-  · intro i li hi
-    simp only [uOps, identB_eq'] at hi
-    rcases hg.par i li with lf | ⟨sh, ys, _, _, hgi, _⟩
-    · unfold Leaf at lf
-      cases hx : (s.rep i).g <;> rw [hx] at lf hi <;> simp [ident] at hi lf
-      subst hi; exact lf
-    · rw [hgi, mkG_not_basic] at hi; cases hi
+  refine outcome_of_spec hg (by simp [WF]) (by simp) (basic_compat hg k) ?_
   · intro s' _ _ eg er
     left
     unfold Leaf
     rw [eg]; exact er
+
+/-! ## named types (declared and completed: `t := NamedOf(name); t.SetUnderlying(x)`) -/
+
+/-- every named type mentioned at the top of an object has an entry in `under` -/
+def Scoped (s : U) : Prop := ∀ i, i < s.reps.length → ∀ j, (s.rep i).g = .named j → j < s.under.length
+
+/-- the universe after `t := NamedOf(name); t.SetUnderlying(x)`, and `t` -/
+def declNamed (o : Ops) (s : U) (name : String) (x : Nat) : U × Nat :=
+  let gu := s.underlying (s.rep x).g
+  let s' := push o s (kindU gu) (.named s.under.length) (s.rep x).r
+  ({ s' with under := s.under ++ [gu], names := s.names ++ [name] }, s.reps.length)
+
+theorem rep_congr {s1 s2 : U} (hr : s2.reps = s1.reps) : s2.rep = s1.rep := by
+  funext i; simp [U.rep, hr]
+
+theorem live_congr {s1 s2 : U} (hr : s2.reps = s1.reps) (i : Nat) : Live s2 i ↔ Live s1 i := by
+  simp [Live, hr, rep_congr hr]
+
+theorem good_congr {s1 s2 : U} (hr : s2.reps = s1.reps) (hm : s2.map = s1.map) (h : Good env nh s1) : Good env nh s2 := by
+  have e := rep_congr hr
+  have l := live_congr hr
+  refine ⟨⟨?_, ?_, ?_, ?_, ?_⟩, ?_⟩
+  · rw [hm]; exact h.tab.map
+  · intro i hi; rw [e]; exact h.tab.gd i ((l i).mp hi)
+  · intro i hi; rw [e, hm]; exact h.tab.self i ((l i).mp hi)
+  · intro k v gk hv
+    rw [hm] at hv
+    obtain ⟨a, b⟩ := h.tab.val k v gk hv
+    exact ⟨(l v).mpr a, by rw [e]; exact b⟩
+  · intro i hi; rw [e]; exact h.tab.opt i ((l i).mp hi)
+  · intro i hi
+    rcases h.par i ((l i).mp hi) with lf | ⟨sh, xs, a, hl, hg', hr'⟩
+    · left; rw [e]; exact lf
+    · right
+      refine ⟨sh, xs, a, fun x hx => (l x).mpr (hl x hx), ?_, ?_⟩
+      · simp only [gsOf, e] at hg' ⊢; exact hg'
+      · simp only [rsOf, e] at hr' ⊢; exact hr'
+
+theorem ident_named {g : Ty} {j : Nat} (h : ident true g (.named j) = true) : g = .named j := by
+  cases g <;> simp [ident] at h
+  rw [h]
+
+theorem mkG_not_named (sh : Shape) (gs : List Ty) (j : Nat) : mkG sh gs ≠ .named j := by
+  cases sh <;> simp [mkG]
+
+theorem scoped_maketype4 {s : U} (hg : Good env nh s) (hs : Scoped s) (kind : Nat) {g : Ty} {r : RTy} (wg : WF env g) (hr : r ≠ .forward)
+    (hc : ∀ i, Live s i → (uOps nh).ident (s.rep i).g g = true → (s.rep i).r = r) (hn : ∀ j, g ≠ .named j) :
+    Scoped (maketype4 (uOps nh) s kind g r 0).1 ∧ (maketype4 (uOps nh) s kind g r 0).1.under = s.under := by
+  rcases maketype4_spec (uEquiv env nh) hg.tab kind wg hr hc with ⟨i, _, _, e⟩ | ⟨_, e⟩
+  · rw [e]; exact ⟨hs, rfl⟩
+  · rw [e]
+    refine ⟨?_, rfl⟩
+    intro i hi j hj
+    have hu : (push (uOps nh) s kind g r).under = s.under := rfl
+    rw [hu]
+    simp only [push, List.length_append, List.length_cons, List.length_nil] at hi
+    by_cases c : i < s.reps.length
+    · have e2 : (push (uOps nh) s kind g r).rep i = s.rep i := by
+        simp only [push, U.rep]
+        simp [List.getD_eq_getElem?_getD, List.getElem?_append_left c]
+      rw [e2] at hj; exact hs i c j hj
+    · have : i = s.reps.length := by omega
+      subst this
+      rw [rep_push_new] at hj
+      exact absurd hj (hn j)
+
+theorem declNamed_good {s : U} (hg : Good env nh s) (hs : Scoped s) {x : Nat} (hx : Live s x) (name : String) :
+    Good env nh (declNamed (uOps nh) s name x).1 ∧ Scoped (declNamed (uOps nh) s name x).1 ∧
+    Ext s (declNamed (uOps nh) s name x).1 ∧ Live (declNamed (uOps nh) s name x).1 (declNamed (uOps nh) s name x).2 ∧
+    ((declNamed (uOps nh) s name x).1.rep (declNamed (uOps nh) s name x).2).g = .named s.under.length ∧
+    ((declNamed (uOps nh) s name x).1.rep (declNamed (uOps nh) s name x).2).r = (s.rep x).r := by
+  have E := uEquiv env nh
+  let gu := s.underlying (s.rep x).g
+  let s' := push (uOps nh) s (kindU gu) (.named s.under.length) (s.rep x).r
+  have hnew : ∀ i, Live s i → (uOps nh).ident (s.rep i).g (.named s.under.length) = false := by
+    intro i li
+    cases c : (uOps nh).ident (s.rep i).g (.named s.under.length) with
+    | false => rfl
+    | true =>
+      simp only [uOps, identB_eq'] at c
+      have := hs i li.1 _ (ident_named c)
+      omega
+  have ht : TabInv (uOps nh) (WF env) s' := tabInv_push E hg.tab (by simp [WF]) hx.2 hnew
+  have hx' := ext_push (o := uOps nh) s (kindU gu) (.named s.under.length) (s.rep x).r
+  have hl : Live s' s.reps.length := ⟨by simp [s', push], by rw [rep_push_new]; exact hx.2⟩
+  have hp : Par s' := by
+    intro i li
+    rcases live_push_inv li with h | h
+    · rcases hg.par i h with lf | pv
+      · left; rw [(hx' i h).2]; exact lf
+      · right; exact pv.ext hx' h
+    · subst h; left; unfold Leaf; rw [rep_push_new]; trivial
+  have hreps : (declNamed (uOps nh) s name x).1.reps = s'.reps := rfl
+  have hmap : (declNamed (uOps nh) s name x).1.map = s'.map := rfl
+  have e := rep_congr hreps
+  have l := live_congr hreps
+  refine ⟨good_congr hreps hmap ⟨ht, hp⟩, ?_, ?_, (l _).mpr hl, ?_, ?_⟩
+  · intro i hi j hj
+    have hu : (declNamed (uOps nh) s name x).1.under = s.under ++ [gu] := rfl
+    rw [hu, List.length_append]
+    rw [hreps] at hi
+    rw [e] at hj
+    simp only [s', push, List.length_append, List.length_cons, List.length_nil] at hi
+    by_cases c : i < s.reps.length
+    · have e2 : s'.rep i = s.rep i := by
+        simp only [s', push, U.rep]
+        simp [List.getD_eq_getElem?_getD, List.getElem?_append_left c]
+      rw [e2] at hj; have := hs i c j hj; simp; omega
+    · have : i = s.reps.length := by omega
+      subst this
+      rw [rep_push_new] at hj
+      cases hj; simp
+  · intro j lj
+    exact ⟨(l j).mpr (hx' j lj).1, by rw [e]; exact (hx' j lj).2⟩
+  · show ((declNamed (uOps nh) s name x).1.rep s.reps.length).g = _
+    rw [e, rep_push_new]
+  · show ((declNamed (uOps nh) s name x).1.rep s.reps.length).r = _
+    rw [e, rep_push_new]
+
+theorem setAt_append_length {α} (l : List α) (a : α) (f : α → α) : setAt (l ++ [a]) l.length f = l ++ [f a] := by
+  induction l with
+  | nil => rfl
+  | cons b l ih => simp [setAt, ih]
+
+/-- the link to the transcribed functions: `NamedOf(name)` followed by `SetUnderlying(x)` on a live
+    object is `declNamed` -/
+theorem named_link {s : U} (hg : Good env nh s) (hs : Scoped s) {x : Nat} (hx : Live s x) (name : String) :
+    (namedOf (uOps nh) s name).2 = (declNamed (uOps nh) s name x).2 ∧
+    setUnderlying (namedOf (uOps nh) s name).1 (namedOf (uOps nh) s name).2 x = some (declNamed (uOps nh) s name x).1 := by
+  have hnone : TypeMap.get (uOps nh) s.map (.named s.under.length) = none := by
+    cases c : TypeMap.get (uOps nh) s.map (.named s.under.length) with
+    | none => rfl
+    | some v =>
+      obtain ⟨lv, iv⟩ := hg.tab.val _ v (by simp [WF]) c
+      simp only [uOps, identB_eq'] at iv
+      have := hs v lv.1 _ (ident_named iv)
+      omega
+  have hxl := hx.1
+  have hrx : ∀ (l : List Rep), (s.reps ++ l).getD x default = s.rep x := by
+    intro l; simp [U.rep, List.getD_eq_getElem?_getD, List.getElem?_append_left hxl]
+  have e1 : namedOf (uOps nh) s name =
+      ({ map := (TypeMap.set (uOps nh) s.map (.named s.under.length) s.reps.length).1,
+         reps := s.reps ++ [⟨0, .named s.under.length, .forward, 2⟩],
+         under := s.under ++ [emptyIface], names := s.names ++ [name] }, s.reps.length) := by
+    simp [namedOf, maketype4, hnone, fresh, add]
+  rw [e1]
+  refine ⟨rfl, ?_⟩
+  obtain ⟨s1, hs1⟩ : ∃ s1 : U, (⟨(TypeMap.set (uOps nh) s.map (.named s.under.length) s.reps.length).1,
+      s.reps ++ [⟨0, .named s.under.length, .forward, 2⟩], s.under ++ [emptyIface], s.names ++ [name]⟩ : U) = s1 := ⟨_, rfl⟩
+  rw [hs1]
+  have hreps : s1.reps = s.reps ++ [⟨0, .named s.under.length, .forward, 2⟩] := by rw [← hs1]
+  have hunder : s1.under = s.under ++ [emptyIface] := by rw [← hs1]
+  have hrepx : s1.rep x = s.rep x := by
+    simp [U.rep, hreps, List.getD_eq_getElem?_getD, List.getElem?_append_left hxl]
+  have hrepn : s1.rep s.reps.length = ⟨0, .named s.under.length, .forward, 2⟩ := by
+    simp [U.rep, hreps, List.getD_eq_getElem?_getD]
+  have hu : s1.underlying (s.rep x).g = s.underlying (s.rep x).g := by
+    cases ht : (s.rep x).g <;> simp only [U.underlying]
+    rename_i j
+    have := hs x hxl j ht
+    simp [hunder, List.getD_eq_getElem?_getD, List.getElem?_append_left this]
+  have hv : valid s1 s.reps.length = true ∧ valid s1 x = true := by
+    simp [valid, hreps]; omega
+  simp only [setUnderlying, hv.1, hv.2, hrepn, hrepx, hu, Bool.not_true]
+  simp only [U.modRep, hreps, hunder, setAt_append_length, declNamed, push]
+  rw [← hs1]
+  simp
 
 /-! ## constructor histories -/
 
@@ -530,11 +700,13 @@ instance (s : U) (i : Nat) : Decidable (Live s i) := by unfold Live; exact infer
 inductive Op where
   | basic (k : Nat)                      -- intern the basic type of kind k
   | mk (sh : Shape) (xs : List Nat)      -- ArrayOf / SliceOf / PtrTo / ChanOf / MapOf / FuncOf / StructOf on objects xs
+  | named (name : String) (x : Nat)      -- t := NamedOf(name); t.SetUnderlying(x)
 
 /-- a call is well formed when the arity fits the shape and every argument is a live object -/
 def Op.ok (s : U) : Op → Prop
   | .basic _ => True
   | .mk sh xs => sh.Arity xs.length ∧ ∀ x ∈ xs, Live s x
+  | .named _ x => Live s x
 
 instance (s : U) (op : Op) : Decidable (op.ok s) := by
   cases op <;> simp only [Op.ok] <;> exact inferInstance
@@ -545,6 +717,7 @@ def step (o : Ops) (s : U) (op : Op) : U × Nat :=
     match op with
     | .basic k => leafBasic o s k
     | .mk sh xs => construct o s sh xs
+    | .named name x => declNamed o s name x
   else (s, 0)
 
 def run (o : Ops) : U → List Op → U
@@ -562,38 +735,67 @@ theorem good_empty : Good env nh emptyU := by
   · intro i h; exact absurd h.1 (by simp [emptyU])
   · intro i h; exact absurd h.1 (by simp [emptyU])
 
-theorem step_good {s : U} (hg : Good env nh s) (op : Op) : Good env nh (step (uOps nh) s op).1 ∧ Ext s (step (uOps nh) s op).1 := by
+theorem scoped_empty : Scoped emptyU := by
+  intro i h; exact absurd h (by simp [emptyU])
+
+theorem construct_scoped {s : U} (hg : Good env nh s) (hs : Scoped s) {sh : Shape} {xs : List Nat}
+    (a : sh.Arity xs.length) (hl : ∀ x ∈ xs, Live s x) : Scoped (construct (uOps nh) s sh xs).1 := by
+  unfold construct maketype
+  have wg : WF env (mkG sh (gsOf s xs)) := WF_mkG sh (by
+    intro t ht
+    simp only [gsOf, List.mem_map] at ht
+    obtain ⟨x, hx, rfl⟩ := ht
+    exact hg.tab.gd x (hl x hx))
+  exact (scoped_maketype4 hg hs _ wg (mkR_ne_forward _ _) (compat hg.tab hg.par a hl) (mkG_not_named _ _)).1
+
+theorem leafBasic_scoped {s : U} (hg : Good env nh s) (hs : Scoped s) (k : Nat) : Scoped (leafBasic (uOps nh) s k).1 := by
+  unfold leafBasic maketype
+  exact (scoped_maketype4 hg hs _ (by simp [WF]) (by simp) (basic_compat hg k) (by simp)).1
+
+theorem step_good {s : U} (hg : Good env nh s) (hs : Scoped s) (op : Op) :
+    Good env nh (step (uOps nh) s op).1 ∧ Scoped (step (uOps nh) s op).1 ∧ Ext s (step (uOps nh) s op).1 := by
   unfold step
   split
   · rename_i hok
     cases op with
-    | basic k => exact ⟨(leafBasic_outcome hg k).good, (leafBasic_outcome hg k).ext⟩
-    | mk sh xs => exact ⟨(construct_outcome hg hok.1 hok.2).good, (construct_outcome hg hok.1 hok.2).ext⟩
-  · exact ⟨hg, Ext.refl s⟩
+    | basic k => exact ⟨(leafBasic_outcome hg k).good, leafBasic_scoped hg hs k, (leafBasic_outcome hg k).ext⟩
+    | mk sh xs => exact ⟨(construct_outcome hg hok.1 hok.2).good, construct_scoped hg hs hok.1 hok.2, (construct_outcome hg hok.1 hok.2).ext⟩
+    | named name x =>
+      obtain ⟨g, sc, e, _⟩ := declNamed_good hg hs hok name
+      exact ⟨g, sc, e⟩
+  · exact ⟨hg, hs, Ext.refl s⟩
 
-theorem run_good : ∀ (ops : List Op) {s : U}, Good env nh s → Good env nh (run (uOps nh) s ops) ∧ Ext s (run (uOps nh) s ops)
-  | [], _, hg => ⟨hg, Ext.refl _⟩
-  | op :: ops, s, hg => by
-      obtain ⟨g1, e1⟩ := step_good hg op
-      obtain ⟨g2, e2⟩ := run_good ops g1
-      exact ⟨g2, e1.trans e2⟩
+theorem run_good : ∀ (ops : List Op) {s : U}, Good env nh s → Scoped s →
+    Good env nh (run (uOps nh) s ops) ∧ Scoped (run (uOps nh) s ops) ∧ Ext s (run (uOps nh) s ops)
+  | [], _, hg, hs => ⟨hg, hs, Ext.refl _⟩
+  | op :: ops, s, hg, hs => by
+      obtain ⟨g1, s1, e1⟩ := step_good hg hs op
+      obtain ⟨g2, s2, e2⟩ := run_good ops g1 s1
+      exact ⟨g2, s2, e1.trans e2⟩
 
 theorem Op.ok_ext {s s' : U} (h : Ext s s') {op : Op} (hok : op.ok s) : op.ok s' := by
   cases op with
   | basic k => trivial
   | mk sh xs => exact ⟨hok.1, fun x hx => (h x (hok.2 x hx)).1⟩
+  | named n x => exact (h x hok).1
 
-/-- repeating a well-formed call later, after any history, returns the same object and changes nothing -/
-theorem step_again {s : U} (hg : Good env nh s) (op : Op) (hok : op.ok s) (ops : List Op) :
+/-- constructor calls that intern (everything except the declaration of a new named type) -/
+def Op.interns : Op → Prop
+  | .named _ _ => False
+  | _ => True
+
+/-- repeating a well-formed interning call later, after any history, returns the same object and changes nothing -/
+theorem step_again {s : U} (hg : Good env nh s) (hs : Scoped s) (op : Op) (hi : op.interns) (hok : op.ok s) (ops : List Op) :
     let s1 := (step (uOps nh) s op).1
     let i := (step (uOps nh) s op).2
     let s2 := run (uOps nh) s1 ops
     step (uOps nh) s2 op = (s2, i) := by
   intro s1 i s2
-  obtain ⟨g1, e1⟩ := step_good hg op
-  obtain ⟨g2, e2⟩ := run_good ops g1
+  obtain ⟨g1, sc1, e1⟩ := step_good hg hs op
+  obtain ⟨g2, _, e2⟩ := run_good ops g1 sc1
   have hok2 : op.ok s2 := Op.ok_ext (e1.trans e2) hok
   cases op with
+  | named n x => cases hi
   | basic k =>
     have o1 := leafBasic_outcome hg k
     have o2 := leafBasic_outcome g2 k
@@ -649,6 +851,48 @@ theorem mapOf_eq {s : U} (hg : Good env nh s) {k e : Nat} (hk : Live s k) (he : 
   obtain ⟨vk, ok, _⟩ := live_facts hg hk
   obtain ⟨ve, oe, _⟩ := live_facts hg he
   simp [mapOf, approx, vk, ve, ok, oe, hh, construct, mkG, mkR, rshape, gsOf, rsOf, RTy.ofList]
+
+/-! ## accessors return the component objects -/
+
+/-- interning the two sides of a live object returns that very object and changes nothing -/
+theorem maketype_live {s : U} (hg : Good env nh s) {x : Nat} (hx : Live s x) (kind : Nat) :
+    maketype4 (uOps nh) s kind (s.rep x).g (s.rep x).r 0 = (s, x) := by
+  have E := uEquiv env nh
+  have wg := hg.tab.gd x hx
+  have hc : ∀ i, Live s i → (uOps nh).ident (s.rep i).g (s.rep x).g = true → (s.rep i).r = (s.rep x).r := by
+    intro i li ii
+    rw [hg.tab.canonical E li hx ii]
+  rcases maketype4_spec E hg.tab kind wg hx.2 hc with ⟨i, li, ii, e⟩ | ⟨hnew, _⟩
+  · rw [e, hg.tab.canonical E li hx ii]
+  · have := hnew x hx
+    rw [E.refl _ wg] at this; cases this
+
+/-- `Elem()` of an array / slice / pointer / channel object built from `x` is the object `x` itself,
+    and `Key()`/`Elem()` of a map built from `k`, `e` are `k` and `e`: no new object, same universe -/
+theorem elem_of_prov {s : U} (hg : Good env nh s) {i x : Nat} (hi : Live s i) (hx : Live s x) :
+    (∀ n, (s.rep i).g = .array n (s.rep x).g → (s.rep i).r = .node (.array n) (.cons (s.rep x).r .nil) →
+      elem (uOps nh) s i = some (s, x)) ∧
+    ((s.rep i).g = .slice (s.rep x).g → (s.rep i).r = .node .slice (.cons (s.rep x).r .nil) →
+      elem (uOps nh) s i = some (s, x)) ∧
+    ((s.rep i).g = .pointer (s.rep x).g → (s.rep i).r = .node .ptr (.cons (s.rep x).r .nil) →
+      elem (uOps nh) s i = some (s, x)) ∧
+    (∀ d, (s.rep i).g = .chan (dirToGdir d) (s.rep x).g → (s.rep i).r = .node (.chan d) (.cons (s.rep x).r .nil) →
+      elem (uOps nh) s i = some (s, x)) := by
+  have vi : valid s i = true := by simp [valid, hi.1]
+  have oi := hg.tab.opt i hi
+  refine ⟨?_, ?_, ?_, ?_⟩
+  · intro n eg er
+    simp only [elem, vi, U.underlying, eg, er, maketype, oi]
+    simp [maketype_live hg hx]
+  · intro eg er
+    simp only [elem, vi, U.underlying, eg, er, maketype, oi]
+    simp [maketype_live hg hx]
+  · intro eg er
+    simp only [elem, vi, U.underlying, eg, er, maketype, oi]
+    simp [maketype_live hg hx]
+  · intro d eg er
+    simp only [elem, vi, U.underlying, eg, er, maketype, oi]
+    simp [maketype_live hg hx]
 
 end ident
 
